@@ -143,6 +143,10 @@ func (d *driver) overlap(sc *scenario, idx int) error {
 	uA := <-resA
 	if uA.status == 200 && !uA.unanswered {
 		nOK++
+		// the uploads that follow are made one after the other, as in the reference: the channel goroutine must have
+		// processed A's segment before the next track registers (manifest.mpd is written when the master track has two
+		// segments and lists the tracks registered by then)
+		r.quiesce(nOK)
 	}
 	var rewritten []byte
 	select {
